@@ -153,7 +153,6 @@ pub mod poly {
 /// Hook H3: drives the crate-private `Prng` (look-ahead buffer, rejection sampling,
 /// `into_new_field`) from an arbitrary byte source, for the fields named in `ops`.
 pub mod prng {
-    use crate::codec::Encode;
     use crate::field::{Field128, Field255, Field64, FieldElement, FieldPrio2, FieldV17, FieldV193, FieldV40961};
     use crate::prng::Prng;
     use rand_core::Rng;
